@@ -157,6 +157,10 @@ FAMILIES = {
     # many candidates per package: crosses the 2/4/8 helper-variable boundaries of the at-most-one encoding
     "wide": dict(max_pkg=3, max_cand=9, p_favored=0.2, p_locked=0.1, p_excluded=0.1, p_hint_all=0.2, p_union=0.25,
                  max_vs=4),
+    # up to 18 candidates per package: helper-variable boundaries 8/9 and 16/17 of the at-most-one encoding as the REAL
+    # encoder registers them (a quarter of the family size: the universes are large)
+    "wider": dict(max_pkg=2, max_cand=18, p_favored=0.2, p_locked=0.1, p_excluded=0.1, p_hint_all=0.2, p_union=0.25, max_vs=5,
+                  n_req=[0, 1, 1], n_con=[0, 0, 1]),
     # hints: eager encoding of candidates that may already be ruled out
     "hints": dict(BASE, p_hint_all=0.5, p_hint_some=0.3, p_locked=0.3, p_excluded=0.25),
     # deeper conflicts: more packages, every solvable has requirements and constrains -> learning and backjumping
